@@ -105,6 +105,18 @@ func Registry() []*Spec {
 		Quick: map[string]int{}, Thorough: map[string]int{},
 		Covers: []string{"done"}, UnitDepth: 3,
 		Note: "Sort: three distinct symbolic keys (<= 2 bytes) in every map iteration order give the same text, keys ascending"})
+	prettySpec := Spec{Name: "VerifPretty", Pkg: "asm",
+		Quick: map[string]int{"PKINDS": 2, "NW": 3}, Thorough: map[string]int{"PKINDS": 4, "NEG": 1},
+		UnitDepth: 5,
+		Note: "pretty.Writer.Marshal (JSON and SEN mode) on 9 tree shapes built for the alignment and line-breaking code (arrays of maps with different key sets, arrays of arrays, nesting to depth 3, empty containers) with symbolic leaves (quick: int in [0,99] or nil; thorough: int in [-99,99], nil, one-byte string, bool), Width from {6,14,40} (thorough: also 1,10,20,80), MaxDepth 1..3, Align on/off: the text decodes (reference JSON decoder / the real sen.Parser) to the input tree"}
+	{
+		s := prettySpec
+		s.Property, s.Asserts, s.Covers = "C04", []string{"no-panic", "json-"}, []string{"json"}
+		add(s)
+		s = prettySpec
+		s.Property, s.Asserts, s.Covers = "C10", []string{"no-panic", "sen-"}, []string{"sen"}
+		add(s)
+	}
 	// ---- C10: SEN writer / parser round trip
 	add(Spec{Property: "C10", Name: "VerifC10_String", Pkg: "asm",
 		Quick: map[string]int{"N": 2}, Thorough: map[string]int{"N": 4},
